@@ -86,10 +86,10 @@ def run_impl(cases, tag):
     obs = json.load(open(cout))
     if len(obs) != len(cases):
         raise vlib.TieBroken("C21 harness returned %d results for %d cases" % (len(obs), len(cases)))
-    for o in obs:
-        if o.get("fatal"):
-            raise vlib.TieBroken("C21 harness: case %s: %s" % (o["id"], o["fatal"]))
-    return obs
+    nfatal = [o for o in obs if o.get("fatal")]
+    if nfatal and len(nfatal) == len(obs):
+        raise vlib.TieBroken("C21 harness: every case failed, e.g. case %s: %s" % (nfatal[0]["id"], nfatal[0]["fatal"]))
+    return obs      # a case the harness could not drive to the end is a disagreement of that case
 
 
 # ---------------------------------------------------------------------------------------
@@ -486,6 +486,10 @@ def witness_cases(params):
             # verify: lookup, query; mutation: update, invalidate, return; verify: insert, return; new verify
             sched = [{"t": 0}, {"t": 0}, {"t": 1}, {"t": 0}, {"t": 0}, {"t": 1}, {"t": 1}, {"t": 1}, {"t": 2}, {"t": 2}]
             w.append(mk_case(0, "W:race:%s:%s" % (kind, mode), mode, ttl, 100, [tok("a", 1)], [ver(1), m, ver(1)], sched))
+            # the trace of C21_pool2_stale_refuted itself: the whole mutation is attempted while the
+            # verification sits between its query and its insert (single connection: blocked thrice)
+            sched2 = [{"t": 0}, {"t": 0}, {"t": 1}, {"t": 1}, {"t": 1}, {"t": 0}, {"t": 0}, {"t": 2}, {"t": 2}, {"t": 2}, {"t": 2}]
+            w.append(mk_case(0, "W:race2:%s:%s" % (kind, mode), mode, ttl, 100, [tok("a", 1)], [ver(1), m, ver(1)], sched2))
         sched = [{"t": 0}] * 4 + [{"tick": 15 * SEC}, {"t": 1}, {"tick": 50 * SEC}, {"t": 2}, {"t": 2}]
         w.append(mk_case(0, "W:expiry:%s" % mode, mode, ttl, 100, [tok("a", 1, exp=T0 + 10 * SEC)], [ver(1), ver(1), ver(1)], sched))
     return w
@@ -512,7 +516,14 @@ def copt_z(x):
     return "None" if x is None else "(Some %s)" % cz(x)
 
 
-def case_to_coq(c, perm):
+def scenario_key(c):
+    ticks = sorted({e["tick"] for e in c["sched"] if "tick" in e})
+    return json.dumps({"mode": c["mode"], "ttl": c["ttl"], "max": c["max"], "t0": c["t0"], "tokens": c["tokens"],
+                       "threads": c["threads"], "ticks": ticks}, sort_keys=True)
+
+
+def scenario_to_coq(key, perm):
+    c = json.loads(key)
     rows = ["{| r_id := %s; r_val := %s; r_enabled := %s; r_exp := %s; r_perms := %s |}" % (
         cn(i + 1), cn(t["val"]), cbool(t["enabled"]), copt_z(t["exp"]), cn(perm(t["perms"]))) for i, t in enumerate(c["tokens"])]
     mode = "Direct" if c["mode"] == "direct" else "Cluster"
@@ -533,28 +544,65 @@ def case_to_coq(c, perm):
             ths.append("M0 %s (SetPerms %s %s)" % (mode, cn(t["tok"]), cn(perm(t["perms"]))))
         else:
             raise vlib.InfraError("unknown thread kind " + k)
-    sch = ["SStep %d" % e["t"] if "t" in e else "STick %s" % cz(e["tick"]) for e in c["sched"]]
-    steps = [cn(STEP_CODE.get(s, 98)) for s in c["obs"]["steps"]]
-    res = []
+    return ("{| sc_cfg := CFG %s %d; sc_t0 := %s; sc_db := %s; sc_threads := %s; sc_ticks := %s |}" % (
+        cz(c["ttl"]), c["max"], cz(c["t0"]), clist(rows), clist(ths), clist([cz(x) for x in c["ticks"]]) if c["ticks"] else "[]"))
+
+
+def enc(digs, base):
+    """little-endian digit string with a leading sentinel 1 (Arc.TokenCache.Model.digits)"""
+    z = 1
+    for d in reversed(digs):
+        if not 0 <= d < base:
+            raise vlib.InfraError("digit %d out of range for base %d" % (d, base))
+        z = z * base + d
+    return z
+
+
+STEP_DIGIT = {"tick": 0, "blocked": 1, "done": 2, "already-done": 3, "at:v-after-lookup": 4, "at:v-after-dbread": 5,
+              "at:v-after-insert": 6, "at:m-after-update": 7, "at:m-after-invalidate": 8}
+
+
+def case_to_coq(c, scen_index, perm):
+    key = scenario_key(c)
+    ticks = json.loads(key)["ticks"]
+    if len(c["threads"]) > 32 or len(ticks) > 32 or len(c["sched"]) > 190:
+        raise vlib.InfraError("case too large for the transport encoding")
+    sd = [e["t"] if "t" in e else 32 + ticks.index(e["tick"]) for e in c["sched"]]
+    od = [STEP_DIGIT.get(s, 15) for s in c["obs"]["steps"]]
+    rd = []
     for r in c["obs"]["results"]:
         if not r["finished"]:
-            res.append("None")
+            rd.append(0)
         else:
-            res.append("(Some (%s, %s, %s))" % (cbool(r["ok"]), cn(r["tokid"]), cn(perm(r["perms"]))))
-    return ("{| k_cfg := CFG %s %d; k_t0 := %s; k_db := %s; k_threads := %s; k_sched := %s; k_obs_steps := %s; k_obs_res := %s |}" % (
-        cz(c["ttl"]), c["max"], cz(c["t0"]), clist(rows), clist(ths), clist(sch), clist(steps), clist(res)))
+            pcode = perm(r["perms"])
+            if r["tokid"] >= 64 or pcode >= 16:
+                raise vlib.InfraError("result out of range for the transport encoding")
+            rd.append(1 + 2 * int(r["ok"]) + 4 * r["tokid"] + 256 * pcode)
+    return "(%d%%nat, %d, %d, %d)" % (scen_index[key], enc(sd, 64), enc(od, 16), enc(rd, 4096))
 
 
 HEADER = ("From Coq Require Import List ZArith NArith Bool.\nFrom Arc Require Import TokenCache.Model.\nFrom ArcGen Require Import Params_TokenCache.\n"
-          "Import ListNotations.\n"
+          "Import ListNotations.\nOpen Scope Z_scope.\n"
           "Definition CFG (ttl : Z) (mx : nat) : cfg := {| c_ttl := ttl; c_max := mx; c_pool := db_max_open_conns; c_clamp := cache_expiry_clamped |}.\n")
 
 
-def eval_in_coq(cases, name):
+def eval_in_coq(cases, name, chunk=2500):
+    """case_agrees / case_oracle_fresh / case_oracle of every case, evaluated by coqc with
+    vm_compute.  Cases travel in the compact encoding of Model.v (scenario table + digit
+    strings): elaborating explicit list literals costs ~10 ms per case."""
     perm = Intern()
-    terms = [case_to_coq(c, perm) for c in cases]
-    return vlib.coq_check_cases("C21", HEADER, "ccase", terms,
-                                {"agree": "case_agrees", "fresh": "case_oracle_fresh", "oracle": "case_oracle"}, chunk=6000, name=name)
+    keys = []
+    seen = {}
+    for c in cases:
+        k = scenario_key(c)
+        if k not in seen:
+            seen[k] = len(keys)
+            keys.append(k)
+    header = HEADER + "Definition scens : list scenario := [\n" + ";\n".join(scenario_to_coq(k, perm) for k in keys) + "].\n"
+    terms = [case_to_coq(c, seen, perm) for c in cases]
+    return vlib.coq_check_cases("C21", header, "rcase", terms,
+                                {"agree": "rc_pred case_agrees scens", "fresh": "rc_pred case_oracle_fresh scens",
+                                 "oracle": "rc_pred case_oracle scens"}, chunk=chunk, name=name)
 
 
 def run_cases(cases, tag):
@@ -575,16 +623,29 @@ def canon(c):
     return json.dumps({k: c[k] for k in ("mode", "ttl", "max", "tokens", "threads", "sched")}, sort_keys=True)
 
 
-def shrink_case(c, still_bad):
-    """shortest schedule prefix, then drop trailing threads that never run"""
-    cur = c
-    for n in range(1, len(c["sched"]) + 1):
-        cand = dict(c, sched=c["sched"][:n])
-        cand.pop("obs", None)
-        if still_bad(cand):
-            cur = cand
-            break
-    return cur
+def shrink_case(c, pred_key):
+    """shortest schedule prefix on which the predicate is still false: all prefixes in ONE harness run"""
+    base = {k: v for k, v in c.items() if k != "obs"}
+    cands = [dict(base, sched=c["sched"][:n], id=n - 1) for n in range(1, len(c["sched"]) + 1)]
+    try:
+        outs = run_cases(cands, "shrink")
+        bad = eval_in_coq(outs, "Shrink_C21")[pred_key]
+    except (vlib.TieBroken, vlib.InfraError):
+        return base
+    return {k: v for k, v in outs[min(bad)].items() if k != "obs"} if bad else base
+
+
+def corpus_cases():
+    """minimised past disagreements / refutation witnesses kept in corpus/C21 (run first)"""
+    d = os.path.join(vlib.ROOT, "corpus", "C21")
+    out = []
+    for fn in sorted(os.listdir(d)) if os.path.isdir(d) else []:
+        if fn.endswith(".json"):
+            c = dict(json.load(open(os.path.join(d, fn)))["case"])
+            c.pop("obs", None)
+            c["fam"] = "K:corpus:" + fn[:-5]
+            out.append(c)
+    return out
 
 
 def setup():
@@ -613,7 +674,7 @@ def run(res, tier, seed):
     ]
 
     t1 = time.time()
-    cases = witness_cases(params) + gen_cases(params, rng, tier)
+    cases = corpus_cases() + witness_cases(params) + gen_cases(params, rng, tier)
     for i, c in enumerate(cases):
         c["id"] = i
     out = run_cases(cases, tier)
@@ -672,14 +733,30 @@ def run(res, tier, seed):
         res.violation("proof obligation(s) no longer check: " + "; ".join(r for _, r in failed),
                       {"kind": "obligation-failed", "theorems": [t for t, _ in failed], "detail": [r for _, r in failed]},
                       no_input=True, suffix="obligation")
-    # 4. model / implementation disagreement
+    # 4. model / implementation disagreement: first look for a concrete failing input near the
+    #    disagreeing schedules (run every thread to completion, then verify the value again)
+    if dis and not reported:
+        probes = []
+        for idx in dis[:40]:
+            c = out[idx]
+            n = len(c["threads"])
+            vals = sorted({t["val"] for t in c["threads"] if t["kind"] == "verify"})
+            threads = c["threads"] + [ver(v) for v in vals]
+            tail = [{"t": i} for _ in range(5) for i in range(n)] + [{"t": n + j} for j in range(len(vals)) for _ in range(4)]
+            pc = mk_case(len(probes), "X:completion-of:" + c["fam"], c["mode"], c["ttl"], c["max"], c["tokens"], threads, c["sched"] + tail, c["t0"])
+            probes.append(pc)
+        pout = run_cases(probes, "probe")
+        pev = eval_in_coq(pout, "Probe_C21")
+        if pev["fresh"]:
+            c = pout[pev["fresh"][0]]
+            res.violation("the real AuthManager authenticated a token value after the mutation that killed it had returned "
+                          "(found by completing a schedule on which model and implementation disagree; %s)" % c["fam"],
+                          {"kind": "stale-authentication", "case": c, "disagreeing_cases": len(dis)})
+            reported = True
     if dis and not reported:
         c = out[dis[0]]
 
-        def still(cand):
-            o = run_cases([cand], "shrink")
-            return bool(eval_in_coq(o, "Shrink_C21")["agree"])
-        small = shrink_case(c, still) if len(dis) < 400 else c
+        small = shrink_case(c, "agree")
         so = run_cases([small], "shrink")[0]
         e2 = eval_in_coq([so], "Shrink_C21")
         bad = bool(e2["fresh"]) or (bool(e2["oracle"]) and "cache-hit-after-token-expiry" not in known)
